@@ -207,7 +207,8 @@ class Stmt:
         inline = getattr(self, 'inline', None)
         for j, l in enumerate(self.lines):
             if j == 0 and inline:
-                l = l + '  # xdoctest: ' + inline           # an inline directive on the statement's first line
+                # an inline directive on the statement's first line, the marker in any accepted spelling
+                l = l + '  # %s: ' % MARKERS[(self.k + len(inline)) % len(MARKERS)] + inline
             if j in unpref:
                 out.append(pad + l)
             elif j in starts:
@@ -276,6 +277,7 @@ PROSE = ['Some prose here.', 'More text about the example:', 'Note the following
 # carrying a comment already)
 INLINE_OK = ('assign', 'print', 'print2', 'expr', 'printexpr', 'none', 'multi', 'compound', 'augassign', 'for', 'while', 'with',
              'import', 'semicolon', 'async_with', 'class')
+MARKERS = ['xdoctest', 'xdoctest', 'xdoc', 'doctest', 'XDOCTEST', 'XDoc', 'DocTest']
 HARMLESS_INLINE = ['+NORMALIZE_WHITESPACE', '+ELLIPSIS', '-IGNORE_WHITESPACE', '+REQUIRES(module:os)']
 
 
